@@ -68,7 +68,7 @@ def classify(p, case, res, model_out):
             first = i; break
     if first is None and len(res.outs) != len(model_out):
         first = min(len(res.outs), len(model_out))
-    if any(l == 'bad-op' for l in model_out):
+    if any(l == 'bad-op' and (i >= len(res.outs) or res.outs[i] != 'bad-op') for i, l in enumerate(model_out)):
         fails.append(Failure('malformed', 'malformed-protocol-line', 'the driver rejected a protocol line', case, {}))
         return fails
     if first is not None:
@@ -197,6 +197,9 @@ def main(argv=None):
                 for t in p.model_tags(l): hist['model:' + t] = hist.get('model:' + t, 0) + 1
 
     # ---------------------------------------------------------------- 5. verdict
+    rdir0 = core.ROOT / 'replays'
+    if rdir0.exists():
+        for old in rdir0.glob(f'{pid}-*.json'): old.unlink()
     groups = {}
     for f in failures:
         groups.setdefault((f.kind, f.signature), []).append(f)
